@@ -75,6 +75,32 @@ def apply(st: State, op: list) -> None:
         elif kind == 'del':
             _, h, key = op
             del st.h[h][key]
+        elif kind == 'deltuple':
+            del st.h[op[1]]['origin', 'TargetName', 'nope']
+        elif kind == 'keysset':
+            import warnings
+            with warnings.catch_warnings():
+                warnings.simplefilter('ignore', DeprecationWarning)
+                try:
+                    st.h[op[1]].keys = dict(op[2])      # deprecated but public: replace every key
+                except ValueError:
+                    if st.h[op[1]] is not st.h[op[1]].map.spawn:
+                        raise
+        elif kind == 'clear_keys':
+            try:
+                st.h[op[1]].clear_keys()
+            except ValueError:
+                if st.h[op[1]] is not st.h[op[1]].map.spawn:
+                    raise
+        elif kind == 'setdefault':
+            st.h[op[1]].setdefault(op[2], op[3])
+        elif kind == 'popitem':
+            try:
+                st.h[op[1]].popitem()
+            except KeyError:
+                pass        # the classname cannot be removed: refusing is fine, the indexes must still agree
+        elif kind == 'update_kw':
+            st.h[op[1]].update(TargetName='n', ClassName='b')
         elif kind == 'pop':
             _, h, key = op
             try:
@@ -218,6 +244,14 @@ class Model(bfs.Model):
             ops.append(['pop', i, 'classname'])
             ops.append(['clear', i])
             ops.append(['unique', i])
+            ops.append(['deltuple', i])
+            ops.append(['keysset', i, {'classname': 'B', 'targetname': 'm'}])
+            ops.append(['keysset', i, {'classname': 'a'}])
+            ops.append(['clear_keys', i])
+            ops.append(['setdefault', i, 'targetname', 'm'])
+            ops.append(['setdefault', i, 'TargetName', 'N'])
+            ops.append(['popitem', i])
+            ops.append(['update_kw', i])
             if len(st.h) < self.maxh:
                 ops.append(['copy', i, 0])
                 ops.append(['copy', i, 1])
